@@ -13,7 +13,7 @@ CARRIERS = {
     "impl<T:ToOwned + ?Sized>WrapperTypeEncode for Cow<'_,T>": 'skip:Cow (Deref through ToOwned::Owned: Borrow<T> is outside Verus; bounded Kani stand-in)',
     'impl<T>WrapperTypeEncode for Vec<T>': ('vec', "impl<T: Encode> Encode for Vec<T>", 'VEC'),
     'impl WrapperTypeEncode for String': 'skip:String (str byte semantics outside Verus; see str module)',
-    'impl WrapperTypeEncode for Bytes': 'skip:Bytes (bytes crate)',
+    'impl WrapperTypeEncode for Bytes': ('bytes', "impl Encode for bytes::Bytes", 'BYTES'),  # stand-in `bytes` module of verus/82_bytes.rs.in (Deref contract assumed)
     "impl<T:EncodeLike<U>,U:Encode>crate::WrapperTypeEncode for Ref<'_,T,U>": 'skip:Ref (see encode_like module)',
 }
 
@@ -51,6 +51,10 @@ def template(src, flags):
         m, hdr, d = c
         if d == 'VEC':
             t = TMPL.replace('$D.spec_enc()', 'compact(self@.len()) + enc_seq(self@)').replace('$D.enc_ok()', 'self@.len() <= u32::MAX && enc_ok_seq(self@)')
+            out.append(t.replace('$M', m).replace('$HDR', hdr).replace('$B', BLANKET))
+            continue
+        if d == 'BYTES':
+            t = TMPL.replace('$D.spec_enc()', 'compact(self@.len()) + enc_seq::<u8>(self@)').replace('$D.enc_ok()', 'self@.len() <= u32::MAX && enc_ok_seq::<u8>(self@)')
             out.append(t.replace('$M', m).replace('$HDR', hdr).replace('$B', BLANKET))
             continue
         out.append(TMPL.replace('$M', m).replace('$HDR', hdr).replace('$D', d).replace('$B', BLANKET))
